@@ -140,6 +140,11 @@ pub fn child(k: usize, outdir: &str, seed: u64, thorough: bool) -> serde_json::V
         "SELECT t.f_zero / t.f_zero AS a FROM nums AS t", "SELECT t.f_pt / t.f_zero AS a FROM nums AS t", "SELECT SUM(t.f_zero / t.f_opt) AS a FROM nums AS t",
         // a NaN operand (witness of the listed finding C18-reversed-interval-assert)
         "SELECT (LOG(-9223372036854775807) / t.f_zero) AS a, t.i_pt AS b FROM nums AS t", "SELECT LOG(-1) * t.f_zero AS a FROM nums AS t",
+        // string functions on constants and value-set columns (evaluated while typing): windows that end before they start,
+        // negative positions, bounds inside a multi-byte character, empty strings
+        "SELECT SUBSTR(t.k, 2, -1) AS a, SUBSTR(t.k, -3, 5) AS b, SUBSTR(t.k, 9, 2) AS c FROM nums AS t", "SELECT SUBSTR('h\u{e9}ron', 2, 2) AS a, SUBSTRING('h\u{e9}ron' FROM 2 FOR 3) AS b, SUBSTR('h\u{e9}ron', 2) AS c FROM nums AS t",
+        "SELECT SUBSTR('alpha', -1) AS a, SUBSTR('', 0, 0) AS b, SUBSTR('alpha', 3, 0) AS c, SUBSTR('alpha', 5, 9223372036854775807) AS d FROM nums AS t",
+        "SELECT LTRIM('\u{e9}\u{e9}a', '\u{e9}') AS a, RTRIM(t.k, '') AS b, UPPER('h\u{e9}ron') AS c, CHAR_LENGTH('h\u{e9}ron') AS d, POSITION('\u{e9}' IN 'h\u{e9}ron') AS e FROM nums AS t",
         // a CTE named like the table its body reads
         "WITH nums AS (SELECT t.id AS id FROM nums AS t) SELECT s.id AS a FROM nums AS s"];
     for i in 0..n {
